@@ -17,7 +17,7 @@ func init() {
 			"C13.3 the wrapper's compound store operations (Get→Put, Get→Del) run inside one critical section of a wrapper-owned mutex; " +
 			"C13.4 Wrapper.Get returns an item only if created+exp is after now; created is stamped before each store and nowhere else; a get naming seq is sent v/k/sig only when the stored seq is newer; " +
 			"C13.6 the configured raw Store flows only into NewWrapper and its Get/Put/Del are invoked only inside the wrapper, so every served item passed the expiry test and every stored one the version test.",
-		NotDecided: "linearizability of real histories against arbitrary Store implementations (the Store is an opaque hook); 301 vs 302 precedence; '>' vs '≥' (value level).",
+		NotDecided: "linearizability of real histories against arbitrary Store implementations (the Store is an opaque hook); 301 vs 302 precedence when both apply (the statement does not fix it).",
 		Rules: []*Rule{
 			{ID: "C13.1", Doc: "overwrite is gated by CheckIncoming", Floor: 1, Run: c13r1},
 			{ID: "C13.2", Doc: "what CheckIncoming=nil means: seq and CAS operands", Floor: 4, Run: c13r2},
